@@ -133,3 +133,8 @@ fn k_rt_4_cancellation_count() {
     std::mem::forget(rt);
 }
 
+
+/// Put the runtime at cancellation count `n` of the current revision.
+pub(crate) fn set_cancellation_count(rt: &mut Runtime, n: u8) {
+    *rt.cancellation_count.get_mut() = n;
+}
